@@ -16,6 +16,7 @@ struct Acc {
     windowed: u64,
     bounded_only: u64,
     probe_evals: u64,
+    vs_reported: u64,
     phases: [u64; 3],
     samples: Vec<Value>,
 }
@@ -28,6 +29,7 @@ fn merge(a: &mut Acc, b: Acc) {
     a.windowed += b.windowed;
     a.bounded_only += b.bounded_only;
     a.probe_evals += b.probe_evals;
+    a.vs_reported += b.vs_reported;
     for i in 0..3 {
         a.phases[i] += b.phases[i];
     }
@@ -85,6 +87,26 @@ fn check_time(c: &Timing, ts: &mina::TimeScale, t: f32, rank: u64, acc: &mut Acc
     if pi == 0 {
         acc.exact += 1;
         return;
+    }
+    // "becomes terminal exactly when ..., and the reported total duration agrees with that behaviour":
+    // terminal strictly below the reported duration, or not terminal strictly above it, is a disagreement
+    // between get_position and get_duration. With delay 0 both are the same f32 number (no slack; t equal
+    // to the reported duration itself is left to the other clauses); with a delay the two roundings of
+    // t - delay and delay + cycle*(n+1) are allowed for.
+    if c.total().is_some() {
+        let d = ts.get_duration();
+        if d.is_finite() {
+            let slack = if c.delay == 0.0 { 0.0 } else { 2.0 * (ulp32(d) as f64).max(ulp32((t - c.delay).abs().max(f32::MIN_POSITIVE)) as f64).max(ulp32(t) as f64) };
+            acc.vs_reported += 1;
+            if pi == 2 && (t as f64) < d as f64 - slack {
+                acc.sink.add("ended-before-reported-duration", rank, || (format!("t={t}: {got:?} although get_duration() = {d}"), cfg_json(c, t)));
+                return;
+            }
+            if pi != 2 && (t as f64) > d as f64 + slack {
+                acc.sink.add("not-ended-after-reported-duration", rank, || (format!("t={t}: {got:?} although get_duration() = {d}"), cfg_json(c, t)));
+                return;
+            }
+        }
     }
     let td32 = t - c.delay;
     let td64 = t as f64 - c.delay as f64;
@@ -185,7 +207,10 @@ fn check_metadata(c: &Timing, rank: u64, acc: &mut Acc) {
                     }
                 }
                 Some(total) => {
-                    if !((d1 as f64 - total).abs() <= 1.5 * ulp32(total as f32) as f64) {
+                    // n + 1 itself is rounded when it needs more than 24 bits (one more rounding step)
+                    let n1 = match c.rep { Rep::Times(n) => n as u64 + 1, _ => 1 };
+                    let tolu = if (n1 as f32) as u64 == n1 { 1.5 } else { 2.5 };
+                    if !((d1 as f64 - total).abs() <= tolu * ulp32(total as f32) as f64) {
                         acc.sink.add("metadata:duration", rank, || (format!("duration {d1}, configured delay + cycle*(repeats+1) = {total}"), mk()));
                     }
                 }
@@ -247,6 +272,17 @@ fn configs() -> Vec<Timing> {
             }
         }
     }
+    // very large repeat counts: n + 1 is not representable in f32 from 2^24 on, so how the end threshold
+    // and the reported duration are rounded starts to matter
+    for &cycle in &[1.0f32, 0.9, 3.0] {
+        for &delay in &[0.0f32, 0.5] {
+            for n in [16_777_215u32, 16_777_216, 16_777_217, 33_554_431, 1 << 31, 4_294_966_911, u32::MAX - 1, u32::MAX] {
+                for reverse in [false, true] {
+                    v.push(Timing::new(cycle, delay, Rep::Times(n), reverse));
+                }
+            }
+        }
+    }
     v
 }
 
@@ -265,6 +301,14 @@ fn boundary_times(c: &Timing, radius: i32) -> Vec<f32> {
     }
     for k in -radius..=radius {
         v.push(step_ulps(c.delay, k));
+    }
+    // around the end: the reported duration and the configured total
+    if let Some(total) = c.total() {
+        let d = c.real().get_duration();
+        for k in -radius..=radius {
+            v.push(step_ulps(d, k));
+            v.push(step_ulps(total as f32, k));
+        }
     }
     for i in 0..=(20 * 16) {
         v.push(i as f32 / 16.0);
@@ -357,12 +401,13 @@ pub fn run(run: Run) -> ! {
     cov.insert("traces_validated_against_impl".into(), json!(acc.exact + acc.semi_exact + acc.windowed));
     cov.insert("evaluations".into(), json!(acc.evals + acc.probe_evals));
     cov.insert("distinct_nontrivial".into(), json!(acc.exact + acc.semi_exact + acc.windowed));
-    cov.insert("rule".into(), json!("504 timing configurations (cycle in {1/4,1,3,0.3,1e-3,1e3,1e-8} x delay in {0,1/2,0.1,7,-1/2,-0.3} x repeat in {None,Times 0,1,2,7,Infinite} x reverse) x {every f32 within +-1024 (thorough 4096) ulp of every phase boundary delay+j*cycle/2 and of the delay, a 1/16 grid up to 20, 2^k(1+j/7) up to 1.5e7 (also offset by the delay), 1e6, 1e30, f32::MAX, MIN_POSITIVE, negative times}; thorough additionally sweeps EVERY finite f32 bit pattern (both signs) for 64 configurations. Oracle RefTimeScale: position in [0,1]; NotStarted iff t<delay (exact); when the arithmetic is exact (power-of-two cycle, exact t-delay) the phase, position and loop flags must equal the reference bit for bit; when only t-delay is exact the phase and flags must be equal and the position within 3 ulp(1) (the remainder is exact, only the division rounds); otherwise agreement with the reference at some t' within +-3 ulp(t) (position tolerance stated per case); when 3 ulp(t) >= cycle/4 only boundedness and far-from-end terminal consistency are asserted (counted as bounded_only). Metadata: delay/cycle/repeat exact, duration within 1.5 ulp of delay+cycle*(repeats+1), infinite iff Infinite; a linear 0->1 probe through Timeline::update must show exactly the position. non-trivial = evaluations compared with the reference (exact + windowed)"));
+    cov.insert("rule".into(), json!("504 timing configurations (cycle in {1/4,1,3,0.3,1e-3,1e3,1e-8} x delay in {0,1/2,0.1,7,-1/2,-0.3} x repeat in {None,Times 0,1,2,7,Infinite} x reverse) + 96 with very large repeat counts (cycle 1,0.9,3 x delay 0,1/2 x Times 2^24-1,2^24,2^24+1,2^25-1,2^31,2^32-385,u32::MAX-1,u32::MAX x reverse) x {every f32 within +-1024 (thorough 4096) ulp of every phase boundary delay+j*cycle/2 (first cycles), of the delay, of the reported duration and of the configured total, a 1/16 grid up to 20, 2^k(1+j/7) up to 1.5e7 (also offset by the delay), 1e6, 1e30, f32::MAX, MIN_POSITIVE, negative times}; thorough additionally sweeps EVERY finite f32 bit pattern (both signs) for 64 configurations. Oracle RefTimeScale: position in [0,1]; NotStarted iff t<delay (exact); when the arithmetic is exact (power-of-two cycle, exact t-delay) the phase, position and loop flags must equal the reference bit for bit; when only t-delay is exact the phase and flags must be equal and the position within 3 ulp(1) (the remainder is exact, only the division rounds); otherwise agreement with the reference at some t' within +-3 ulp(t) (position tolerance stated per case); when 3 ulp(t) >= cycle/4 only boundedness and far-from-end terminal consistency are asserted (counted as bounded_only). Every evaluation of a finite configuration is also checked against the REPORTED duration: terminal strictly before get_duration() or not terminal strictly after it is a violation (no slack when delay = 0, 2 ulp otherwise). Metadata: delay/cycle/repeat exact, duration within 1.5 ulp (2.5 when repeats+1 needs more than 24 bits) of delay+cycle*(repeats+1), infinite iff Infinite; a linear 0->1 probe through Timeline::update must show exactly the position. non-trivial = evaluations compared with the reference (exact + windowed)"));
     cov.insert("exhaustive".into(), json!(true));
     cov.insert("compared_exact".into(), json!(acc.exact));
     cov.insert("compared_exact_phase_position_within_3ulp".into(), json!(acc.semi_exact));
     cov.insert("compared_with_jitter_window".into(), json!(acc.windowed));
     cov.insert("bounded_only".into(), json!(acc.bounded_only));
+    cov.insert("compared_with_reported_duration".into(), json!(acc.vs_reported));
     cov.insert("phases_observed_notstarted_active_ended".into(), json!(acc.phases));
     cov.insert("full_f32_sweep_configs".into(), json!(swept_cfgs));
     cov.insert("full_f32_sweep_evaluations".into(), json!(swept_values));
